@@ -11,7 +11,7 @@ from loki.ir import (
     CallStatement, Transformer, FindNodes, FindVariables,
     FindInlineCalls, SubstituteExpressions
 )
-from loki.tools import OrderedSet
+from loki.tools import OrderedSet, CaseInsensitiveDict
 from loki.types import DerivedType
 
 
@@ -181,8 +181,15 @@ def extract_internal_procedure(procedure, name):
     # USE statements for each module.
     imports_to_add = []
     to_lookup_from_imports = dtype_imports_to_add + kind_imports_to_add + var_imports_to_add
+    # The symbols may also be imported in a scope that encloses `procedure`. What is imported neither in
+    # `procedure` nor in an enclosing scope is declared in an enclosing scope and needs no import.
+    import_map = CaseInsensitiveDict(
+        (s.name, imp) for imp in reversed(procedure.all_imports) for s in imp.symbols
+    )
     for val in to_lookup_from_imports:
-        imp = procedure.import_map[val.name]
+        imp = import_map.get(val.name)
+        if imp is None:
+            continue
         matching_import = tuple(i for i in imports_to_add if i.module == imp.module)
         if matching_import:
             # Have already encountered module name, modify existing.
